@@ -489,6 +489,12 @@ class C11(Prop):
             lines = build_lines('a', cx, names=nm, route='faces', rnd=rnd)
             lines += ['flag w a', 'snap w', 'check c11 w a', 'flag x w', 'check samefam x w flagComplex-idempotent']
             scripts.append(lines)
+        if tier != 'quick':
+            # a hub with 130 spokes and a few rim edges (implementation and oracle only: the combinations are too many
+            # for the extracted model): counters of cofaces beyond 127
+            lines = ['! new a', '! add a [ ] sHUB -'] + ['! add a [ ] i%d -' % k for k in range(130)] + \
+                    ['! add a [ sHUB i%d ] - -' % k for k in range(130)] + ['! add a [ i%d i%d ] - -' % (k, k + 1) for k in (0, 1, 2, 50, 128)]
+            scripts.append(lines + ['! flag w a', 'check c11 w a'])
         # hollow spheres and random graphs on 6-7 points
         for k in (2, 3):
             lines = ['gen void a %d - -' % k, 'flag w a', 'snap w', 'check c11 w a']
